@@ -204,6 +204,13 @@ def check(ctx):
         ctx.inst('R2', pu, 'rate-needs-field:' + norm(n.ast.value), fact_key('len(parsed_path) > 1', True) in g.fact_keys_at(n), 'rate is read only if the field exists')
       ctx.inst('R2', pu, 'rate-table', tbl == RATES, 'parse_uri rate table %s, expected %s' % (tbl, RATES))
     ad = assigns('address')
+    # the default address list is shared by every call: the override binds a new value, it never writes into the object it got
+    inplace = [norm(n.ast)[:60] for n in g.nodes if n.kind == 'stmt' and (
+        (isinstance(n.ast, (ast.Assign, ast.AugAssign)) and any(isinstance(t, ast.Subscript) and norm(t.value) in ('address', 'DEFAULT_ADDR_A')
+                                                                for t in (n.ast.targets if isinstance(n.ast, ast.Assign) else [n.ast.target]))) or
+        (isinstance(n.ast, ast.Expr) and isinstance(n.ast.value, ast.Call) and isinstance(n.ast.value.func, ast.Attribute) and norm(n.ast.value.func.value) in ('address', 'DEFAULT_ADDR_A') and
+         n.ast.value.func.attr in ('append', 'extend', 'insert', 'clear', 'pop', 'remove', 'reverse', 'sort')))]
+    ctx.inst('R2', pu, 'default-address-not-written', not inplace, 'parse_uri writes into the (shared) address object: %s - every later URI without an address gets the last explicit one' % inplace)
     ctx.need(len(ad) == 2, 'parse_uri: address default/override not found')
     ctx.inst('R2', pu, 'default-address', norm(ad[0].ast.value) == 'DEFAULT_ADDR_A' and fold_in(pu, ad[0].ast.value) == [0xe7] * 5 and
              fold(ast.Name(id='DEFAULT_ADDR', ctx=ast.Load()), sc) == 0xE7E7E7E7E7, 'default address = E7E7E7E7E7 in both constants')
@@ -357,6 +364,12 @@ def check(ctx):
     ctx.inst('R4', si, 'scan-address-conversion', len(addr_def) == 1 and format_template(addr_def[0]) == ('{:0>10X}', ['address']) and st.get('new_addr') == "struct.unpack('<BBBBB', binascii.unhexlify(addr))",
              'scan address uses the same 10-digit left padding and byte order as parse_uri')
 
+    # the driver registry only grows while init_drivers runs: emptying it first leaves a window in which another thread finds no driver
+    idr = m.func(CR, 'init_drivers')
+    shrink = [norm(x)[:40] for x in walk_own(idr.node) if (isinstance(x, ast.Delete) and any('CLASSES' in norm(t) for t in x.targets)) or
+              (isinstance(x, ast.Call) and isinstance(x.func, ast.Attribute) and norm(x.func.value) == 'CLASSES' and x.func.attr in ('clear', 'pop', 'remove')) or
+              (isinstance(x, ast.Assign) and any(norm(t).startswith('CLASSES') for t in x.targets))]
+    ctx.inst('R1', idr, 'registry-only-grows', not shrink, 'init_drivers removes or replaces entries of CLASSES: %s' % shrink)
     # ---- R5 ------------------------------------------------------------------------------------------
     gl = m.func(CR, 'get_link_driver')
     lp = [l for l in walk_own(gl.node) if isinstance(l, ast.For)]
